@@ -4,7 +4,7 @@
    (decided by wf_panelb); wf_nested adds as many pairwise distinct column names as variables. *)
 From Coq Require Import ZArith List Bool Permutation Sorted.
 Require Import SkV.Lib.Base SkV.C15.Model SkV.C15.Lemmas SkV.C15.Proofs SkV.C15.Long SkV.C15.Paths
-  SkV.C15.Main SkV.C15.Layout.
+  SkV.C15.Main SkV.C15.Layout SkV.C15.Prims SkV.C15.Gen SkV.C15.Bridge SkV.C15.BridgeAll.
 Import ListNotations.
 Open Scope Z_scope.
 
@@ -115,6 +115,28 @@ Theorem C15_lossless_paths_keep_data : forall V es t (c : @cpanel V) r,
 Proof. exact @main_lossless_paths_keep_data. Qed.
 Print Assumptions C15_lossless_paths_keep_data.
 
+(* ... and exactly WHAT they return: the original data rendered in the end representation, under
+   names computed without looking at the data *)
+Theorem C15_lossless_path_result : forall V es t (c : @cpanel V) t' (c' : @cpanel V),
+  cwf c -> path_ok es (t, c) -> forallb lossless es = true ->
+  sem_path es (t, c) = Some (t', c') ->
+  run_path es (render t c) = Ok (render t' (mkC (c_names c') (c_data c))) /\
+  nsem_path es (t, c_names c, ncols_of c) = Some (t', c_names c', ncols_of c).
+Proof. exact @lossless_path_result. Qed.
+Print Assumptions C15_lossless_path_result.
+
+(* every path (of any length) between two representations that avoids table -> nested and
+   long -> nested yields the same result as the direct conversion ending with the same names *)
+Theorem C15_path_equals_direct_conversion :
+  forall V es e t (c : @cpanel V) t' (c' c1 : @cpanel V),
+  cwf c -> path_ok es (t, c) -> edge_ok e c ->
+  forallb lossless es = true -> lossless e = true ->
+  sem_path es (t, c) = Some (t', c') -> sem e (t, c) = Some (t', c1) ->
+  c_names c1 = c_names c' ->
+  run_path es (render t c) = apply_edge e (render t c).
+Proof. exact @path_equals_direct. Qed.
+Print Assumptions C15_path_equals_direct_conversion.
+
 Theorem C15_direct_equals_indirect : forall V n c T (x : nested V),
   wf_nested n c T x ->
   nested_to_mi x = a3_to_mi (Some (n_cols x)) (nested_to_3d x) /\
@@ -214,6 +236,32 @@ Theorem C15_table_layout : forall V n c T (p : panel V) (d : V),
 Proof. exact @tab_layout. Qed.
 Print Assumptions C15_table_layout.
 
+(* the tie: the conversion functions as REGENERATED from sktime/utils/data_processing.py by
+   translator/panel_c15.py (gen_*, build/coq/C15/Gen.v) return, on the containers of the property,
+   exactly what the model functions of the theorems above return (from_long_to_nested and
+   from_2d_array_to_nested: on ANY non-empty input) *)
+Theorem C15_generated_code_is_the_model :
+  forall V n c T (x : nested V) cn cn' b lv1 lv2 (L : long V) (t : tab2 V),
+  wf_nested n c T x -> names_ok c cn -> L <> [] -> t <> [] ->
+  gen_from_nested_to_3d_numpy x = Ok (nested_to_3d x) /\
+  gen_from_3d_numpy_to_nested (n_rows x) cn b = Ok (a3_to_nested cn (kind_of b) (n_rows x)) /\
+  gen_from_3d_numpy_to_multi_index (n_rows x) cn = Ok (a3_to_mi cn (n_rows x)) /\
+  gen_from_multi_index_to_3d_numpy (nested_to_mi x) (Some 0%nat) (Some 1%nat) =
+    Ok (mi_to_3d (nested_to_mi x)) /\
+  gen_from_nested_to_multi_index x lv1 lv2 = Ok (nested_to_mi x) /\
+  gen_from_multi_index_to_nested (nested_to_mi x) (Some 0%nat) b =
+    Ok (mi_to_nested (kind_of b) (nested_to_mi x)) /\
+  gen_from_nested_to_long x = Ok (nested_to_long x) /\
+  gen_from_long_to_nested L cn' = Ok (long_to_nested cn' L) /\
+  gen_from_nested_to_2d_array x b = Ok (nested_to_2d x) /\
+  gen_from_3d_numpy_to_2d_array (n_rows x) = a3_to_2d (n_rows x) /\
+  gen_from_2d_array_to_nested t b = Ok (tab_to_nested (kind_of b) t) /\
+  (forall f : frame V, gen_is_nested_dataframe f = is_nested_dataframe f /\
+                       gen_are_columns_nested f = are_columns_nested f) /\
+  (forall k, gen_make_column_names k = default_names k).
+Proof. exact @generated_is_model. Qed.
+Print Assumptions C15_generated_code_is_the_model.
+
 (* the hypotheses are satisfiable: a 2 x 2 x 2 panel with unsorted names "b", "a" *)
 Example C15_nonvacuous :
   let x := mkN KArray [NStr [98]; NStr [97]] [[[1; 2]; [3; 4]]; [[5; 6]; [7; 8]]] in
@@ -221,5 +269,11 @@ Example C15_nonvacuous :
   long_to_nested None (nested_to_long x) =
     mkN KSeries [NStr [97]; NStr [98]] [[[3; 4]; [1; 2]]; [[7; 8]; [5; 6]]] /\
   run_path [E_N_M; E_M_A; E_A_T; E_T_N KSeries] (RN x) =
-    Ok (RN (mkN KSeries [NInt 0] [[[1; 2; 3; 4]]; [[5; 6; 7; 8]]])).
+    Ok (RN (mkN KSeries [NInt 0] [[[1; 2; 3; 4]]; [[5; 6; 7; 8]]])) /\
+  (* an indirect path and the direct conversion (C15_path_equals_direct_conversion) *)
+  run_path [E_N_M; E_M_A; E_A_M (Some (n_cols x))] (RN x) = apply_edge E_N_M (RN x) /\
+  (* names and data through the long table (C15_names_survive_iff_carried, through_long) *)
+  run_path [E_N_L; E_L_N None; E_N_M] (RN x) =
+    Ok (RM (mkM [NStr [97]; NStr [98]]
+                [((0, 0), [3; 1]); ((0, 1), [4; 2]); ((1, 0), [7; 5]); ((1, 1), [8; 6])])).
 Proof. vm_compute. repeat split. Qed.
